@@ -320,6 +320,18 @@ func (c *FnCtx) evalConversion(x *ast.CallExpr, to types.Type, st *State) string
 			return "(f64ofint " + v + ")"
 		case fb.Info()&types.IsFloat != 0 && tb.Info()&types.IsInteger != 0:
 			r := "(goInt64OfF64 " + v + ")"
+			if c.specMode == 0 {
+				// name the result and state its characterisation over reals (a consequence of the definition that
+				// spares the solver the to_int / roundToIntegral reasoning)
+				n := c.fresh("f2i", sInt)
+				st.addDef(eq(n, r))
+				rv := "(fp.to_real " + v + ")"
+				st.addDef("(ite (and (not (fp.isNaN " + v + ")) (not (fp.isInfinite " + v + ")) (< (- 9223372036854775809.0) " + rv + ") (< " + rv + " 9223372036854775808.0)) " +
+					"(and (=> (>= " + rv + " 0.0) (and (<= (to_real " + n + ") " + rv + ") (< (- " + rv + " 1.0) (to_real " + n + ")))) " +
+					"(=> (< " + rv + " 0.0) (and (>= (to_real " + n + ") " + rv + ") (< (to_real " + n + ") (+ " + rv + " 1.0))))) " +
+					"(= " + n + " (- 9223372036854775808)))")
+				r = n
+			}
 			if tb.Kind() == types.Int64 || tb.Kind() == types.Int {
 				return r
 			}
@@ -483,6 +495,9 @@ func (c *FnCtx) evalSpecBuiltin(x *ast.CallExpr, fobj *types.Func, st *State) st
 	case "V_sameslice":
 		a, b := c.eval(x.Args[0], st), c.eval(x.Args[1], st)
 		return and(eq("(sbase "+a+")", "(sbase "+b+")"), eq("(soff "+a+")", "(soff "+b+")"), eq("(slen "+a+")", "(slen "+b+")"))
+	case "V_fnv32":
+		c.declareFun("fnv32", []string{sString}, sInt)
+		return "(fnv32 " + c.eval(x.Args[0], st) + ")"
 	case "V_runeCount":
 		return "(runeCount " + c.eval(x.Args[0], st) + ")"
 	case "V_runeAt":
@@ -534,7 +549,8 @@ func (c *FnCtx) evalSpecBuiltin(x *ast.CallExpr, fobj *types.Func, st *State) st
 	case "V_seqat":
 		return sel("(qel"+c.tt.sortOf(c.typeOf(x.Args[0]))+" "+c.eval(x.Args[0], st)+")", c.eval(x.Args[1], st))
 	case "V_isIntegral":
-		return "(isIntegralF " + c.eval(x.Args[0], st) + ")"
+		v := c.eval(x.Args[0], st)
+		return and(not("(fp.isNaN "+v+")"), not("(fp.isInfinite "+v+")"), "(is_int (fp.to_real "+v+"))")
 	case "V_isFinite":
 		v := c.eval(x.Args[0], st)
 		return and(not("(fp.isNaN "+v+")"), not("(fp.isInfinite "+v+")"))
